@@ -105,6 +105,7 @@ type Pred struct {
 	Ambiguous bool // several independent reasons / order dependent: only accept-vs-reject is judged
 	Skip      bool // do not execute (outside what the statements define)
 	Why       string
+	Cycle     bool // an accepted delete whose cascade closure holds a reference cycle or a self reference
 }
 
 func ok() Pred                 { return Pred{Exp: ExpOK} }
@@ -485,9 +486,8 @@ func (m *Model) Delete(store, id string) Pred {
 			}
 		}
 	}
-	if selfCycle {
-		return Pred{Skip: true, Why: "cascade-delete cycle (not driven: unbounded recursion)"}
-	}
+	// a cascade edge which leads back into the closure (reference cycle, self reference) adds nothing to it: the members
+	// of the cycle are deleted like every other member
 	// restrict edges
 	restrictOutside, restrictInside := false, false
 	for k := range closure {
@@ -536,7 +536,7 @@ func (m *Model) Delete(store, id string) Pred {
 		}
 	}
 	sort.Strings(m.LastDeleted)
-	return ok()
+	return Pred{Exp: ExpOK, Cycle: selfCycle}
 }
 
 func (m *Model) remove(t, id string) {
